@@ -39,7 +39,7 @@ VARIABLES exists,   \* "no" | "ok" | "broken" (the file exists / was damaged by 
           snap,     \* frame table a read-only handle sees
           dirty, pins,   \* dirty flag, pending_frame_inserts
           noAuto,   \* batch mode with auto-checkpoint disabled
-          ticket,   \* [seq, cap]
+          ticket,   \* [seq, cap, mem, ver] as the handle has it + d: the copy in the file's TOC
           cpe,      \* cached payload end (absolute offset) used by the capacity check
           acked,    \* ghost: acknowledged mutations since the last successful commit, in order
           last      \* observation of the last call
@@ -139,6 +139,16 @@ Apply(fs, recs) == ApplyRecs(fs, recs, EmptyMap)
 
 Capacity == IF ticket.cap # 0 THEN ticket.cap ELSE TierCap
 
+(* ------------------------------- the ticket ----------------------------- *)
+\* seq / cap: the ticket last accepted; mem: the dashboard memory the file is bound to (0 = unbound); ver: the
+\* last accepted ticket carried a valid signature.  They live in the TOC: the handle's copy changes at once, the
+\* file's copy `d` whenever the TOC is written (every commit, vacuum, apply_ticket ...), and open reads it back.
+Tk(seq, cap, mem, ver) == [seq |-> seq, cap |-> cap, mem |-> mem, ver |-> ver]
+Live(t) == Tk(t.seq, t.cap, t.mem, t.ver)
+Persist(t) == [t EXCEPT !.d = Live(t)]
+Load(t) == [seq |-> t.d.seq, cap |-> t.d.cap, mem |-> t.d.mem, ver |-> t.d.ver, d |-> t.d]
+WithD(live, d) == [seq |-> live.seq, cap |-> live.cap, mem |-> live.mem, ver |-> live.ver, d |-> d]
+
 RECURSIVE PendingStored(_)
 PendingStored(recs) == IF recs = <<>> THEN 0
                        ELSE (IF Head(recs).k = "ins" /\ Head(recs).reuse < 0 THEN Head(recs).slen ELSE 0) + PendingStored(Tail(recs))
@@ -148,7 +158,7 @@ Init ==
   /\ exists = "no" /\ frames = <<>> /\ pend = <<>>
   /\ wR = R0 /\ wh = 0 /\ wpb = 0 /\ wapc = 0 /\ wseq = 0 /\ wcseq = 0
   /\ hdl = "none" /\ snap = <<>> /\ dirty = FALSE /\ pins = 0 /\ noAuto = FALSE
-  /\ ticket = [seq |-> 0, cap |-> 0] /\ cpe = 0 /\ acked = <<>>
+  /\ ticket = WithD(Tk(0, 0, 0, FALSE), Tk(0, 0, 0, FALSE)) /\ cpe = 0 /\ acked = <<>>
   /\ last = Obs("init", "ok", 0)
 
 Create ==
@@ -156,7 +166,7 @@ Create ==
   /\ exists' = "ok" /\ frames' = <<>> /\ pend' = <<>>
   /\ wR' = R0 /\ wh' = 0 /\ wpb' = 0 /\ wapc' = 0 /\ wseq' = 0 /\ wcseq' = 0
   /\ hdl' = "rw" /\ snap' = <<>> /\ dirty' = FALSE /\ pins' = 0 /\ noAuto' = FALSE
-  /\ ticket' = [seq |-> 1, cap |-> TierCap]  \* free-tier placeholder ticket
+  /\ ticket' = WithD(Tk(1, TierCap, 0, FALSE), Tk(1, TierCap, 0, FALSE))  \* free-tier placeholder ticket
   /\ cpe' = HdrSize + R0 /\ acked' = <<>>
   /\ last' = Obs("create", "ok", 0)
 
@@ -176,9 +186,9 @@ NothingToCommit == pend = <<>> /\ ~dirty
 Commit(lexLen, pe) ==
   /\ hdl = "rw"
   /\ IF NothingToCommit /\ lexLen = 0
-       THEN UNCHANGED <<frames, pend, wal, dirty, pins, acked, cpe, exists>>
-       ELSE CommitEffect(lexLen, pe)
-  /\ UNCHANGED <<hdl, snap, noAuto, ticket>>
+       THEN UNCHANGED <<frames, pend, wal, dirty, pins, acked, cpe, exists, ticket>>
+       ELSE CommitEffect(lexLen, pe) /\ ticket' = Persist(ticket)
+  /\ UNCHANGED <<hdl, snap, noAuto>>
   /\ last' = Obs("commit", "ok", 0)
 
 \* open read-write: replay the pending window in place, then checkpoint
@@ -197,23 +207,25 @@ OpenRW(lexLen, pe) ==
             /\ wapc' = 0
   /\ hdl' = "rw" /\ dirty' = FALSE /\ pins' = 0 /\ noAuto' = FALSE
   /\ cpe' = Max(HdrSize + wR', pe)   \* recomputed from the frame table at open
-  /\ UNCHANGED <<snap, ticket>>
+  /\ ticket' = Load(ticket)
+  /\ UNCHANGED snap
   /\ last' = Obs("open", "ok", 0)
 
 OpenRO ==
   /\ hdl = "none" /\ exists = "ok"
   /\ hdl' = "ro" /\ snap' = frames
-  /\ UNCHANGED <<exists, frames, pend, wal, dirty, pins, noAuto, ticket, cpe, acked>>
+  /\ ticket' = Load(ticket)
+  /\ UNCHANGED <<exists, frames, pend, wal, dirty, pins, noAuto, cpe, acked>>
   /\ last' = Obs("open_ro", "ok", 0)
 
 \* Drop: commits when dirty
 Close(lexLen, pe) ==
   /\ hdl # "none"
   /\ IF hdl = "rw" /\ (dirty \/ lexLen > 0)
-       THEN CommitEffect(lexLen, pe)
-       ELSE UNCHANGED <<frames, pend, wal, dirty, pins, acked, cpe, exists>>
+       THEN CommitEffect(lexLen, pe) /\ ticket' = Persist(ticket)
+       ELSE UNCHANGED <<frames, pend, wal, dirty, pins, acked, cpe, exists, ticket>>
   /\ hdl' = "none" /\ noAuto' = FALSE
-  /\ UNCHANGED <<snap, ticket>>
+  /\ UNCHANGED snap
   /\ last' = Obs("close", "ok", 0)
 
 \* the handle disappears between two calls without Drop running
@@ -233,12 +245,14 @@ AppendRecords(recs, lens, nIns, lexLen, pe, op, ack) ==
       /\ wR' = w2.r /\ wh' = w2.h /\ wpb' = 0 /\ wapc' = 0 /\ wseq' = w2.seq /\ wcseq' = w2.seq
       /\ dirty' = FALSE /\ pins' = 0 /\ acked' = <<>>
       /\ cpe' = Max(cpe, pe) /\ exists' = Damage(w1, lexLen)
+      /\ ticket' = Persist(ticket)
       /\ last' = Obs(op, "ok", wseq + 1)
     ELSE
       /\ lexLen = 0 /\ cpe' = cpe /\ exists' = exists
       /\ frames' = frames /\ pend' = pend \o recs
       /\ wR' = w1.r /\ wh' = w1.h /\ wpb' = w1.pb /\ wapc' = w1.apc /\ wseq' = w1.seq /\ wcseq' = wcseq
       /\ dirty' = TRUE /\ pins' = pins + nIns /\ acked' = Append(acked, ack)
+      /\ ticket' = ticket
       /\ last' = Obs(op, "ok", wseq + 1)
 
 RECURSIVE ChunkRecs(_, _, _, _, _, _, _)
@@ -264,7 +278,7 @@ PutDo(uri, role, ts, pay, emb, nchunks, cembs, slen, lens, lexLen, pe, meta) ==
       recs == <<parent>> \o ChunkRecs(0, nchunks, pseq, uri, ts, pay, cembs)
   IN /\ hdl = "rw" /\ Len(lens) = 1 + nchunks
      /\ AppendRecords(recs, lens, 1 + nchunks, lexLen, pe, "put", [k |-> "put", pay |-> pay, uri |-> uri])
-     /\ UNCHANGED <<hdl, snap, noAuto, ticket>>
+     /\ UNCHANGED <<hdl, snap, noAuto>>
 
 PutM(uri, role, ts, pay, emb, nchunks, cembs, slen, lens, lexLen, pe, meta) ==
   /\ hdl = "rw"
@@ -294,7 +308,7 @@ UpdateM(f, hasPay, pay, emb, nchunks, slen, lens, lexLen, pe, meta) ==
               recs == <<parent>> \o (IF hasPay THEN ChunkRecs(0, nchunks, pseq, old.uri, old.ts, pay, <<>>) ELSE <<>>)
           IN /\ (~hasPay => nchunks = 0)
              /\ AppendRecords(recs, lens, 1 + nchunks, lexLen, pe, "update", [k |-> "update", pay |-> pay, uri |-> old.uri])
-             /\ UNCHANGED <<hdl, snap, noAuto, ticket>>
+             /\ UNCHANGED <<hdl, snap, noAuto>>
 
 Update(f, hasPay, pay, emb, nchunks, slen, lens, lexLen, pe) == UpdateM(f, hasPay, pay, emb, nchunks, slen, lens, lexLen, pe, NoMeta)
 
@@ -303,7 +317,7 @@ Delete(f, len, lexLen, pe) ==
   /\ IF f < 0 \/ f >= Len(frames) THEN Reject("delete", "FrameNotFound")
      ELSE IF frames[f + 1].st # "active" THEN Reject("delete", "InvalidFrame")
      ELSE /\ AppendRecords(<<Tomb(wseq + 1, f)>>, <<len>>, 0, lexLen, pe, "delete", [k |-> "delete", pay |-> f, uri |-> ""])
-          /\ UNCHANGED <<hdl, snap, noAuto, ticket>>
+          /\ UNCHANGED <<hdl, snap, noAuto>>
 
 \* vacuum = commit, then rewrite active payloads contiguously in place and rebuild indexes
 Vacuum(lexLen, lexLen2, pe) ==
@@ -322,7 +336,8 @@ Vacuum(lexLen, lexLen2, pe) ==
      /\ dirty' = (IF committed THEN FALSE ELSE dirty) /\ pins' = 0 /\ acked' = <<>>
   /\ cpe' = Max(cpe, pe)
   /\ exists' = (IF Damage(W, lexLen) = "broken" THEN "broken" ELSE exists)
-  /\ UNCHANGED <<hdl, snap, noAuto, ticket>>
+  /\ ticket' = Persist(ticket)
+  /\ UNCHANGED <<hdl, snap, noAuto>>
   /\ last' = Obs("vacuum", "ok", 0)
 
 \* Memvid::doctor(path, opts) on a closed file: replays the pending window, optionally vacuums, rebuilds what the
@@ -357,9 +372,45 @@ Doctor(vac, rebuild, dry, st) == DoctorStatusAllowed(vac, rebuild, dry, st) /\ D
 ApplyTicket(s, c) ==
   /\ hdl = "rw"
   /\ IF s <= ticket.seq THEN Reject("ticket", "TicketSequence")
-     ELSE /\ ticket' = [seq |-> s, cap |-> c]
+     ELSE /\ ticket' = Persist([ticket EXCEPT !.seq = s, !.cap = c, !.ver = FALSE])      \* the TOC is rewritten at once
           /\ last' = Obs("ticket", "ok", 0)
           /\ UNCHANGED <<exists, frames, pend, wal, hdl, snap, dirty, pins, noAuto, cpe, acked>>
+
+\* apply_signed_ticket: accepted only when the file is bound, the ticket names that memory, its Ed25519 signature over the
+\* canonical payload verifies (`authentic`: decided outside the model - the harness knows whether it signed exactly these
+\* fields with the key the crate trusts) and its sequence number is newer.  Which error a rejected ticket gets is not modelled.
+SignedAccepted(s, m, authentic) == ticket.mem # 0 /\ m = ticket.mem /\ authentic /\ s > ticket.seq
+ApplySigned(s, c, m, authentic) ==
+  /\ hdl = "rw"
+  /\ IF ~SignedAccepted(s, m, authentic) THEN Reject("signed_ticket", "rejected")
+     ELSE /\ ticket' = Persist([ticket EXCEPT !.seq = s, !.cap = c, !.ver = TRUE])
+          /\ last' = Obs("signed_ticket", "ok", 0)
+          /\ UNCHANGED <<exists, frames, pend, wal, hdl, snap, dirty, pins, noAuto, cpe, acked>>
+
+\* set_memory_binding_only(m): refused when bound to another memory; in the handle only until the next TOC write
+BindOnly(m) ==
+  /\ hdl = "rw"
+  /\ IF ticket.mem \notin {0, m} THEN Reject("bind_only", "MemoryAlreadyBound")
+     ELSE /\ ticket' = [ticket EXCEPT !.mem = m] /\ dirty' = TRUE
+          /\ last' = Obs("bind_only", "ok", 0)
+          /\ UNCHANGED <<exists, frames, pend, wal, hdl, snap, pins, noAuto, cpe, acked>>
+
+\* bind_memory(m, unsigned ticket): the ticket is applied (and written) first, then the binding is set in the handle
+Bind(m, s, c) ==
+  /\ hdl = "rw"
+  /\ IF ticket.mem \notin {0, m} THEN Reject("bind", "MemoryAlreadyBound")
+     ELSE IF s <= ticket.seq THEN Reject("bind", "TicketSequence")
+     ELSE /\ ticket' = [Persist([ticket EXCEPT !.seq = s, !.cap = c, !.ver = FALSE]) EXCEPT !.mem = m]
+          /\ dirty' = TRUE
+          /\ last' = Obs("bind", "ok", 0)
+          /\ UNCHANGED <<exists, frames, pend, wal, hdl, snap, pins, noAuto, cpe, acked>>
+
+\* unbind_memory: back to the free-tier placeholder ticket (sequence 1): the sequence numbers accepted before no longer count
+Unbind ==
+  /\ hdl = "rw"
+  /\ ticket' = WithD(Tk(1, TierCap, 0, FALSE), ticket.d) /\ dirty' = TRUE
+  /\ last' = Obs("unbind", "ok", 0)
+  /\ UNCHANGED <<exists, frames, pend, wal, hdl, snap, pins, noAuto, cpe, acked>>
 
 BeginBatch(na) == /\ hdl = "rw" /\ noAuto' = na /\ last' = Obs("begin_batch", "ok", 0)
                   /\ UNCHANGED <<exists, frames, pend, wal, hdl, snap, dirty, pins, ticket, cpe, acked>>
@@ -374,7 +425,8 @@ CommitSkip(pe) ==
   /\ frames' = Apply(frames, pend) /\ pend' = <<>>
   /\ wR' = wR /\ wh' = wh /\ wpb' = 0 /\ wapc' = 0 /\ wseq' = wseq /\ wcseq' = wseq
   /\ dirty' = FALSE /\ pins' = 0 /\ acked' = <<>> /\ cpe' = Max(cpe, pe)
-  /\ UNCHANGED <<exists, hdl, snap, noAuto, ticket>>
+  /\ ticket' = Persist(ticket)
+  /\ UNCHANGED <<exists, hdl, snap, noAuto>>
   /\ last' = Obs("commit_skip", "ok", 0)
 
 Finalize(lexLen) ==
@@ -382,7 +434,8 @@ Finalize(lexLen) ==
   /\ LET w1 == IF lexLen > 0 THEN AppendAll(W, <<lexLen>>) ELSE W IN
      /\ pend' = (IF lexLen > 0 THEN Append(pend, Lex(w1.seq)) ELSE pend)
      /\ wR' = w1.r /\ wh' = w1.h /\ wpb' = w1.pb /\ wapc' = w1.apc /\ wseq' = w1.seq /\ wcseq' = wcseq
-  /\ UNCHANGED <<exists, frames, hdl, snap, dirty, pins, noAuto, ticket, cpe, acked>>
+  /\ ticket' = Persist(ticket)
+  /\ UNCHANGED <<exists, frames, hdl, snap, dirty, pins, noAuto, cpe, acked>>
   /\ last' = Obs("finalize", "ok", 0)
 
 \* reads never change anything
